@@ -21,7 +21,7 @@ ASSUMPTIONS = ["whole numbers >= 1e16 (exponent form) and dates before 1900-03-0
 # texts that look like what the workbook's XML uses itself (rich-text runs, character escapes, entities, CDATA): to the
 # row writer they are texts like any other (only used where cutplace is the producer)
 MARKUP_LOOK_ALIKES = ["<r>abc</r>", "<r><t>hello</t></r>", "<r> x </r>", "<t>x</t>", "_x0041_", "_x000D_", "a_x005F_b", "&lt;", "&#10;", "]]>", "<![CDATA[x]]>", "<r>", "</r>",
-                      "a\x01b", "<r>_x0041_</r>", "<r>a\x01b</r>"]
+                      "a\x01b", "<r>_x0041_</r>", "<r>a\x01b</r>", "<r>first line\nsecond line</r>", "<r>\n</r>"]
 ESCAPE_IN_RICH_TEXT_LOOK_ALIKE = re.compile(r"^<r>.*(_x[0-9A-Fa-f]{4}_|[\x00-\x08\x0b-\x1f\ufffe\uffff]).*</r>$", re.S)
 STRINGS = ["", "a", "Hello World", "  padded  ", "=1+2", "12", "1.0", "1.50", "TRUE", "äöü €", "日本語", "line\nbreak", "a\tb", "'quoted'", "<&>", "0", "-", "1e5", "2020-01-02"]
 
